@@ -30,28 +30,35 @@ type LOp struct {
 	Val  *gen.Tree `json:"val,omitempty"` // value for set / setchild
 }
 
+// LRef is an unresolvable reference planted in the tree.
+type LRef struct {
+	Path  []string `json:"path"`
+	Shape string   `json:"shape"` // missing | index | self | cycle2 | cycle3 | rho | through-prim | chain | errmsg
+}
+
 // LCase is a data tree, the options and the calls.
 type LCase struct {
 	Tree     *gen.Tree `json:"tree"`
 	VarExp   bool      `json:"varexp,omitempty"`
 	Resolver bool      `json:"resolver,omitempty"` // pass a resolver that knows no variable (else none)
 	Meta     string    `json:"meta,omitempty"`
+	Refs     []LRef    `json:"refs,omitempty"` // planted reference faults (VarExp only)
 	Ops      []LOp     `json:"ops"`
 }
 
 var (
 	getterOps  = []string{"bool", "int", "uint", "float", "string", "child"}
 	lowOps     = []string{"bool", "int", "uint", "float", "string", "child", "has", "remove", "count", "set", "setchild", "unpack", "has", "remove", "count", "int", "child"}
-	plainStrs  = []string{"zz", "x y", "12", "true", "s", "", "-3", "1.5"}
+	plainStrs  = []string{"zz", "x y", "12", "true", "s", "", "-3", "1.5", "90%", "%d's"}
 	dynStrs    = []string{"${nope}", "${nope}", "${a}", "${b.c}", "x${nope}", "${a.0}", "${d}", "${c}", "${nope:dflt}", "$${a}"}
-	badNumStrs = map[string]bool{"zz": true, "x y": true}
+	badNumStrs = map[string]bool{"zz": true, "x y": true, "90%": true, "%d's": true}
 )
 
 func genLCase(t *rapid.T) LCase {
 	c := LCase{
 		VarExp:   rapid.IntRange(0, 2).Draw(t, "varexp") > 0,
 		Resolver: rapid.IntRange(0, 3).Draw(t, "resolver") > 0,
-		Meta:     rapid.SampledFrom([]string{"", "file.yml"}).Draw(t, "meta"),
+		Meta:     rapid.SampledFrom(metaPool).Draw(t, "meta"),
 	}
 	strs := append([]string{}, plainStrs...)
 	if c.VarExp {
@@ -60,6 +67,10 @@ func genLCase(t *rapid.T) LCase {
 		strs = append(strs, "${nope}", "$", "a.b")
 	}
 	tc := &gen.TreeCfg{Depth: runlog.Pick(3, 4), Width: runlog.Pick(4, 5), Strings: strs}
+	if rapid.IntRange(0, 2).Draw(t, "hostilekeys") > 0 {
+		// names with format verbs, quotes, braces, blanks, non-ASCII next to a-d
+		tc.Keys = lowKeys
+	}
 	c.Tree = gen.GenObj(t, tc, tc.Depth)
 	// more strings than the shared generator draws: references and unparsable text
 	var sprinkle func(n *gen.Tree)
@@ -74,12 +85,22 @@ func genLCase(t *rapid.T) LCase {
 	}
 	sprinkle(c.Tree)
 
+	if c.VarExp {
+		plantRefs(t, &c)
+	}
+
 	var paths [][]string
 	c.Tree.Walk(nil, func(p []string, n *gen.Tree) {
 		if len(p) > 0 {
 			paths = append(paths, append([]string{}, p...))
 		}
 	})
+	for _, ref := range c.Refs {
+		// read the planted references often
+		for i := 0; i < 3; i++ {
+			paths = append(paths, append([]string{}, ref.Path...))
+		}
+	}
 	nops := rapid.IntRange(1, runlog.Pick(6, 10)).Draw(t, "nops")
 	for i := 0; i < nops; i++ {
 		op := LOp{Op: rapid.SampledFrom(lowOps).Draw(t, "op"), Idx: -1}
@@ -117,6 +138,99 @@ func genLCase(t *rapid.T) LCase {
 		c.Ops = append(c.Ops, op)
 	}
 	return c
+}
+
+var lowKeys = []string{"a", "b", "c", "d", "a", "b", "used%", "%d", "100%s", "it's", `"q"`, "{x}", "a b", "é☃", "x%20y", "[k]"}
+
+var lowShapes = []string{"missing", "index", "self", "cycle2", "cycle3", "rho", "through-prim", "chain", "errmsg"}
+
+// plantRefs adds up to three unresolvable references of a known shape (with
+// their auxiliary settings) to objects of the tree.
+func plantRefs(t *rapid.T, c *LCase) {
+	type host struct {
+		path []string
+		node *gen.Tree
+	}
+	var hosts []host
+	var prims, lists [][]string
+	c.Tree.Walk(nil, func(p []string, n *gen.Tree) {
+		if !refSafe(p) {
+			return
+		}
+		switch {
+		case n.K == "obj":
+			hosts = append(hosts, host{append([]string{}, p...), n})
+		case n.K == "list":
+			lists = append(lists, append([]string{}, p...))
+		case n.IsPrim() && len(p) > 0 && !(n.K == "str" && strings.Contains(n.S, "$")):
+			prims = append(prims, append([]string{}, p...))
+		}
+	})
+	ref := func(p []string, more ...string) string {
+		return "${" + strings.Join(append(append([]string{}, p...), more...), ".") + "}"
+	}
+	n := rapid.IntRange(0, 3).Draw(t, "nrefs")
+	for i := 0; i < n; i++ {
+		h := rapid.SampledFrom(hosts).Draw(t, "host")
+		h2 := rapid.SampledFrom(hosts).Draw(t, "host2")
+		h3 := rapid.SampledFrom(hosts).Draw(t, "host3")
+		g, gx, gy := fmt.Sprintf("g%d", i), fmt.Sprintf("g%dx", i), fmt.Sprintf("g%dy", i)
+		if rapid.IntRange(0, 3).Draw(t, "gname") == 0 {
+			g = fmt.Sprintf("g%d%%'s", i) // the setting that is read has a hostile name itself
+		}
+		shape := rapid.SampledFrom(lowShapes).Draw(t, "shape")
+		var expr string
+		switch shape {
+		case "missing":
+			expr = rapid.SampledFrom([]string{"${nope}", ref(h2.path, "nope"), ref(h2.path, "nope", "x")}).Draw(t, "missing")
+		case "index":
+			if len(lists) == 0 {
+				shape, expr = "missing", "${nope}"
+				break
+			}
+			expr = ref(rapid.SampledFrom(lists).Draw(t, "list"), "99")
+		case "self":
+			expr = ref(h.path, g)
+		case "cycle2":
+			expr = ref(h2.path, gx)
+			h2.node.Put(gx, gen.Str(ref(h.path, g)))
+		case "cycle3":
+			expr = ref(h2.path, gx)
+			h2.node.Put(gx, gen.Str(ref(h3.path, gy)))
+			h3.node.Put(gy, gen.Str(ref(h.path, g)))
+		case "rho":
+			expr = ref(h2.path, gx)
+			h2.node.Put(gx, gen.Str(ref(h3.path, gy)))
+			h3.node.Put(gy, gen.Str(ref(h2.path, gx)))
+		case "through-prim":
+			if len(prims) == 0 {
+				h2.node.Put(gx, gen.Uint(5))
+				expr = ref(h2.path, gx, "x")
+				break
+			}
+			expr = ref(rapid.SampledFrom(prims).Draw(t, "prim"), rapid.SampledFrom([]string{"x", "x.y", "a", "y%.0"}).Draw(t, "below"))
+		case "chain":
+			expr = ref(h2.path, gx)
+			h2.node.Put(gx, gen.Str("${nope}"))
+		case "errmsg":
+			expr = "${nope:?no value: 100% 'sure'}"
+		}
+		if rapid.IntRange(0, 3).Draw(t, "gsplice") == 0 {
+			expr = "pre " + expr + " post"
+		}
+		h.node.Put(g, gen.Str(expr))
+		c.Refs = append(c.Refs, LRef{Path: append(append([]string{}, h.path...), g), Shape: shape})
+	}
+}
+
+// planted returns the shape of the reference fault planted at addr ("" if none).
+func planted(c *LCase, addr []string) string {
+	for _, r := range c.Refs {
+		if samePath(r.Path, addr) {
+			return r.Shape
+		}
+	}
+	return ""
 }
 
 // lookup walks the data tree strictly: keys in objects, in-range indices in
@@ -298,21 +412,60 @@ func runLCase(c LCase, r *runlog.R) error {
 		for _, g := range getterOps {
 			isGetter = isGetter || g == op.Op
 		}
-		if !isGetter || mutated {
+		if !(isGetter || op.Op == "count") || mutated {
 			continue
 		}
+		if op.Op == "count" {
+			addr = op.Path // CountField takes no index
+		}
 		n, known := lookup(c.Tree, addr)
-		if !known || n == nil || !mustFail(&c, op.Op, n) {
+		if !known || n == nil {
+			continue
+		}
+		// the setting that was addressed exists: whatever makes reading it
+		// fail (wrong type, failed conversion, unresolvable reference) is a
+		// failure caused by this setting
+		shape := ""
+		if c.VarExp {
+			shape = planted(&c, addr)
+		}
+		must := isGetter && mustFail(&c, op.Op, n)
+		if isGetter && shape != "" {
+			// a cycle or a path through a primitive can not be resolved by
+			// anything; a missing variable can not by a resolver that knows none
+			must = c.Resolver || !(shape == "missing" || shape == "chain" || shape == "index")
+		}
+		if opErr == nil {
+			if must {
+				return fmt.Errorf("%s succeeded on a %s setting (planted reference fault: %q)\n tree %s", what, n.K, shape, show(c.Tree))
+			}
 			continue
 		}
 		asserted++
-		if opErr == nil {
-			return fmt.Errorf("%s succeeded on a %s setting\n tree %s", what, n.K, show(c.Tree))
-		}
 		if e := checkError(opErr, strings.Join(addr, "."), c.Meta); e != nil {
+			// N-C14-1: when the resolution of a dynamic setting fails with an
+			// error that is typed already, CountField hands it out as it is
+			// ("cyclic reference detected for key: '<other member>'",
+			// "required 'object', but found 'string' in field '<the primitive
+			// passed through>'": another setting, no source) where the getters
+			// wrap it. The class (count on an unresolvable expression) is
+			// constructed away only while that finding is open.
+			if dyn := c.VarExp && n.K == "str" && strings.Contains(n.S, "$"); dyn && op.Op == "count" && avoid("N-C14-1") {
+				r.Excluded("N-C14-1")
+				continue
+			}
 			return fmt.Errorf("%s: %v\n tree %s", what, e, show(c.Tree))
 		}
-		if n.K == "str" && strings.Contains(n.S, "$") {
+		r.ClassIf(must, "must-fail read asserted")
+		pct, quote, other := hostileClasses(addr)
+		r.ClassIf(pct, "failing setting has % in its name")
+		r.ClassIf(pct && c.Meta != "", "failing setting has % in its name, with metadata")
+		r.ClassIf(quote || other, "failing setting has other special characters in its name")
+		if shape != "" {
+			r.Class("read of planted reference fault=" + shape)
+			r.Class("read of planted reference fault through " + op.Op)
+			deepErr = true
+		} else if c.VarExp && n.K == "str" && strings.Contains(n.S, "$") {
 			r.Class("getter on unresolvable reference")
 			deepErr = true
 		}
@@ -322,13 +475,15 @@ func runLCase(c LCase, r *runlog.R) error {
 	r.ClassIf(c.VarExp, "with VarExp")
 	r.ClassIf(c.Resolver, "with resolver")
 	r.ClassIf(c.Meta != "", "with metadata")
+	r.ClassIf(strings.ContainsAny(c.Meta, "%'\"{}$"), "source name with special characters")
+	r.ClassIf(len(c.Refs) > 0, "with planted reference faults")
 	r.ClassIf(mutated, "config mutated by an op")
 	return nil
 }
 
 var subLow = runlog.Register(&runlog.Sub[LCase]{
 	Name: "lowlevel",
-	Rule: "random data tree (keys a-d, depth <= 3, strings incl. ${...} references that resolve, do not resolve or are cyclic when VarExp is on) normalised with PathSep/MetaData/VarExp, then 1-6 calls of Bool/Int/Uint/Float/String/Child/Has/Remove/CountField/Set*/SetChild/Unpack on real paths of the tree and on paths extended through primitives, to missing keys and out-of-range indices, with and without idx, with and without a resolver that knows no variable. Every non-nil error must be a ucfg.Error with Reason and Class; a getter addressing an existing setting it can not convert (container, wrong primitive kind, unparsable string, ${nope} with the resolver) must fail and its message must end in accessing '<full path>' [(source:'<name>')] (asserted until the first successful mutation). Non-trivial: at least one error on an address of >= 2 segments or on an unresolvable reference. Distinct: hash of the case.",
+	Rule: "random data tree (keys a-d, in 2/3 of the cases also names with %, %d, quotes, braces, blanks, non-ASCII; depth <= 3; strings incl. texts with % and ${...} references that resolve, do not resolve or are cyclic when VarExp is on) normalised with PathSep/MetaData (source names incl. %, quotes, braces)/VarExp. With VarExp 0-3 unresolvable references of a known shape are planted in random objects, with auxiliary settings in other objects: missing variable or missing key below an existing object, index out of range of an existing list, self cycle, cycle of length 2 and 3, reference into a cycle, path through an existing primitive, chain ending in a missing variable, ${x:?message}; plain or inside a splice; a quarter of them under a name with % and a quote. Then 1-6 calls of Bool/Int/Uint/Float/String/Child/Has/Remove/CountField/Set*/SetChild/Unpack on real paths of the tree (planted references three times as often) and on paths extended through primitives, to missing keys and out-of-range indices, with and without idx, with and without a resolver that knows no variable. Every non-nil error must be a ucfg.Error with Reason and Class. A getter addressing an existing setting it can not convert (container, wrong primitive kind, unparsable string, ${nope} with the resolver, a planted cycle / path through a primitive / error expansion with or without resolver, a planted missing variable with the resolver) must fail; EVERY error of a getter or of CountField that addresses an existing setting (strict walk of the tree: keys of objects, in-range indices of lists) must end in accessing|in field '<full path of the setting that was read>' (source:'<name>') - the source demanded whenever MetaData was given (asserted until the first successful mutation). Non-trivial: at least one error on an address of >= 2 segments or on an unresolvable reference. Distinct: hash of the case.",
 	Gen:  genLCase,
 	Run:  runLCase,
 })
